@@ -85,6 +85,8 @@ def scenarios(repo):
     sc.append(("scan_mod_hash_mv", "scan", MODRULES["hash"], ["mv=1"]))
     sc.append(("scan_mod_tests_mv", "rscan", MODRULES["tests"], ["mv=1"]))
     sc.append(("compile_ext", "compile", EXT, EXTS))
+    # base64 with wide / ascii wide: a small rule of its own so that the quick tier fails EVERY allocation of it (N <= 300)
+    sc.append(("compile_b64wide", "compile", 'rule b { strings: $e = "hello world" base64 wide $f = "abcd" base64wide ascii wide condition: any of them }', []))
     files = {"pe": "file=" + os.path.join(d, "tiny"), "elf": "file=" + os.path.join(d, "elf_with_imports"), "macho": "file=" + os.path.join(d, "tiny-universal"),
              "dex": "blob=dex", "dotnet": "file=" + os.path.join(d, "0ca09bde7602769120fadc4f7a4147347a7a97271370583586c9e587fd396171")}
     for m, txt in MODRULES.items():
